@@ -377,6 +377,23 @@ fn run_qnt(input: &Value) -> (Case, bool) {
     )
 }
 
+// ------------------------------------------------------------------ RND
+
+fn run_rnd(input: &Value) -> Case {
+    let seed = input["seed"].as_u64().unwrap_or(0) as u32;
+    let n = input["n"].as_u64().unwrap_or(0) as usize;
+    let mut rnd = surf_n_term::common::Rnd::with_seed(seed);
+    let outs: Vec<u32> = (0..n).map(|_| rnd.next_u32()).collect();
+    let mut j = input.clone();
+    j["impl"] = json!(outs);
+    Case {
+        coq: format!("RND {} {}", seed, cnums(&outs)),
+        json: j,
+        tags: vec!["kind=rnd".to_string()],
+        nontrivial: n >= 2,
+    }
+}
+
 // ------------------------------------------------------------------ generators
 
 const EDGE: [u8; 16] = [0, 1, 2, 3, 63, 64, 65, 126, 127, 128, 129, 191, 192, 253, 254, 255];
@@ -520,11 +537,12 @@ fn gen_oct(rng: &mut Rng) -> Value {
 }
 
 fn gen_qnt(rng: &mut Rng, big: bool) -> Value {
-    let k = if big { *rng.pick(&[1u64, 1, 2]) } else { *rng.pick(&KS) };
+    let k = if big { 1 + rng.below(16) } else { *rng.pick(&KS) };
     let (h, w) = if big {
-        // enough pixels for the subsampling branch: h*w / (k*100) >= 2
-        let w = 10 + rng.below(30) as usize;
-        let need = 200 * k as usize + rng.below(260) as usize;
+        // enough pixels for the subsampling branch: h*w / (k*100) in 2..~40, up to ~10k pixels
+        let w = 10 + rng.below(90) as usize;
+        let lo = 200 * k as usize;
+        let need = (lo + rng.below((lo * 4) as u64) as usize).min(10000).max(lo);
         (need / w + 1, w)
     } else {
         (1 + rng.below(12) as usize, 1 + rng.below(16) as usize)
@@ -555,7 +573,10 @@ fn gen_qnt(rng: &mut Rng, big: bool) -> Value {
         Value::Null
     };
     let bg = if rng.chance(1, 2) {
-        json!([rng.byte(), rng.byte(), rng.byte(), 255])
+        // opaque and translucent backgrounds (the latter reach rasterize's un-premultiplication)
+        let rb = rng.byte();
+        let a = if rng.chance(1, 3) { *rng.pick(&[0u8, 1, 127, 254, rb]) } else { 255 };
+        json!([rng.byte(), rng.byte(), rng.byte(), a])
     } else {
         Value::Null
     };
@@ -704,6 +725,11 @@ fn gen_qnt_huge_k(rng: &mut Rng) -> Value {
 pub fn generate(rng: &mut Rng, n: usize, tier: &str) -> Vec<Value> {
     let thorough = tier == "thorough";
     let mut v = vec![];
+    // common::Rnd against the model: the seed from_image uses (0) and a few others, long streams
+    v.push(json!({"kind": "rnd", "seed": 0, "n": 400}));
+    for _ in 0..3 {
+        v.push(json!({"kind": "rnd", "seed": (rng.next() & 0xffff_ffff), "n": 120}));
+    }
     for i in 0..n {
         let x = match i % 10 {
             0 | 1 | 2 => gen_kd(rng, thorough),
@@ -743,6 +769,7 @@ pub fn batch(inputs: &[Value]) -> Batch {
     for input in inputs {
         let (case, hang) = match input["kind"].as_str().unwrap_or("") {
             "kd" => (run_kd(input), false),
+            "rnd" => (run_rnd(input), false),
             "oct" => run_oct(input),
             _ => run_qnt(input),
         };
